@@ -120,6 +120,8 @@ void vs_register_stack(const void* lo, size_t len);
 void* vs_alloc_far(size_t n);
 // tolerate accesses to freed (never reused, still intact) memory: for harness classes where the CALLER keeps using a dead handle
 void vs_heap_allow_freed(int on);
+// number of spin-wait iterations (cpu_relax) the calling virtual thread has executed so far
+uint64_t vs_spin_calls(void);
 // called when a virtual thread enters epoll_wait with a non-zero time-out (it is about to sleep in the kernel)
 extern void (*vs_on_blocking_poll)(void);
 // single-writer fields: the first virtual thread that writes [p, p+n) after this call owns it; a write by any other
